@@ -425,8 +425,8 @@ extern "C" int misc()
     vf_assert(*it == "a", "first-occurrence order (1)"); ++it; vf_assert(*it == "b", "first-occurrence order (2)"); ++it; vf_assert(*it == "c", "first-occurrence order (3)");
     break; }
   case 5: { // toBool on the text forms it documents
-    static const char* texts[] = {"", "0", "false", "FALSE", "0.0", "0.", ".0", "00.000", "1", "true", "0.1", "x", "00"};
-    static const bool want[] = {false, false, false, false, false, false, false, false, true, true, true, true, true};
+    static const char* texts[] = {"", "0", "false", "FALSE", "0.0", "0.", ".0", "00.000", "1", "true", "0.1", "x", "00", "000", "010", "."};
+    static const bool want[] = {false, false, false, false, false, false, false, false, true, true, true, true, false, false, true, true};   // every decimal spelling of zero is false
     unsigned k = vf_pick(sizeof(texts) / sizeof(*texts));
     String t = String::fromCString(texts[k]);
     vf_assert(t.toBool() == want[k], "toBool on a documented text form");
